@@ -8,7 +8,11 @@
     simple_eq_generic_partial equivalent_spellings_agree self_prefix_irrelevant_nonpositional
     dslash_is_descendant simple_eq_generic_kmp simple_eq_generic_fragments_partial
     self_prefix_default_choice simple_eq_generic_fragments_pattern true_pred_default_choice
-    simple_eq_generic_spellings_partial
+    simple_eq_generic_spellings_partial simple_eq_generic_spellings_pattern simple_eq_generic_attr
+    simple_eq_generic interior_attribute_not_simple true_pred_default_choice_full
+    self_prefix_default_choice_pattern supports_probe_systematic self_prefix_irrelevant_pattern
+    true_pred_irrelevant_pattern self_prefix_pattern_default self_prefix_irrelevant_attr
+    self_prefix_default_choice_full
 -/
 import Genshi.Model.Path
 import Genshi.Model.PathParse
@@ -21,6 +25,8 @@ import Genshi.Lemmas.PathNonPos
 import Genshi.Lemmas.PathKmpRun
 import Genshi.Lemmas.PathFrags
 import Genshi.Lemmas.PathFragsSelf
+import Genshi.Lemmas.PathFragsPattern
+import Genshi.Lemmas.PathFragsAttr
 namespace Genshi.Props.C17
 open Genshi Genshi.Path
 
@@ -35,6 +41,15 @@ def modelSupports (text : Str) : List Bool :=
 /-- The model's `supports` predicates give, on the basis of path shapes, the verdicts probed
     from the real strategy classes on every run (`Gen.Path.supportsProbe`). -/
 theorem supports_probe_agrees : ∀ p ∈ Gen.Path.supportsProbe, modelSupports p.1 = p.2 := by
+  decide +kernel
+
+/-- The same on the systematic basis the translator probes on every run
+    (`Gen.Path.supportsProbeSys`): every single step (7 axis spellings × 10 node tests, with and
+    without a predicate), every pair and every triple of steps over a reduced alphabet — the real
+    parser's reading of each text and the real classes' three verdicts against `parse` and the
+    model's `supports`. -/
+theorem supports_probe_systematic :
+    ∀ chunk ∈ Gen.Path.supportsProbeSys, ∀ p ∈ chunk, modelSupports p.1 = p.2 := by
   decide +kernel
 
 /-- first non-`None` of a list of results -/
@@ -91,19 +106,20 @@ theorem runTest_single (steps : List Step) (ic : Bool) (ns : NsMap) (vs : Vars) 
     reports.  Proved by a simulation: the depth counter abstracts the position stack, the single
     counter list is the counter of the one context node (`Lemmas/PathSingle.lean`).
 
-    Hypotheses: the stream is the flattening of ONE element (with several top-level elements
+    Hypothesis: the stream is the flattening of ONE element (with several top-level elements
     the two differ on positional predicates: `forest_positional_differs`, finding
-    C17-forest-positional); on the attribute axis the node test is one the parser builds for
-    that axis. -/
+    C17-forest-positional).  No hypothesis on the node test any more: on the attribute axis
+    the parser also builds node-type tests (`attribute::text()`), for which SingleStepStrategy
+    used to report `False` where GenericStrategy reports `None` (fixed finding
+    C17-single-attribute-false, genshi fix 996160a: `… or None`). -/
 theorem single_eq_generic (s : Step) (ic skip : Bool) (ns : NsMap) (vs : Vars)
-    (tag : QName) (attrs : AttrList) (kids : List Node) (hok : okList kids = true)
-    (hattr : s.axis = .attribute → s.test.attrFlag = true) :
+    (tag : QName) (attrs : AttrList) (kids : List Node) (hok : okList kids = true) :
     traceCaller (pathTest [[s]] ic (some .single)).1 ns vs skip (pathTest [[s]] ic (some .single)).2
         (Node.elem tag attrs kids).flatten
       = traceCaller (pathTest [[s]] ic (some .generic)).1 ns vs skip (pathTest [[s]] ic (some .generic)).2
         (Node.elem tag attrs kids).flatten := by
   simp only [traceCaller, pathTest, List.map_cons, List.map_nil, mkMatcher]
-  rw [runTest_generic, runTest_single, single_eq_generic_run s ic ns vs tag attrs kids hok hattr]
+  rw [runTest_generic, runTest_single, single_eq_generic_run_full s ic ns vs tag attrs kids hok]
 
 -- the hypotheses are satisfiable on a non-trivial input: `b[2]` on <a><b/><b/></a>
 example : okList [Node.elem ⟨[], ['b']⟩ [] [], Node.elem ⟨[], ['b']⟩ [] []] = true := by decide
@@ -664,6 +680,17 @@ theorem all2_gSteps (ns : NsMap) (vs : Vars) (p1 p2 : LocPath) (h : All2 (StepEq
     · exact All2.cons (StepEq.refl ns vs dotSlash) (All2.cons hab hl)
     · exact All2.cons hab hl
 
+theorem simpleSupports_false_of_preds (p : LocPath) (s : Step) (hs : s ∈ p) (hp : s.preds ≠ []) :
+    simpleSupports p = false := by
+  cases p with
+  | nil => rfl
+  | cons s0 rest =>
+    have : s.preds.isEmpty = false := by cases hsp : s.preds <;> simp_all
+    simp only [simpleSupports, Bool.and_eq_false_iff]
+    left; right
+    rw [List.all_eq_false]
+    exact ⟨s, hs, by simp [this]⟩
+
 theorem insertPred_preds (p : LocPath) (i k : Nat) (t : Expr) (hi : i < p.length) :
     ∃ s ∈ insertPred p i k t, s.preds ≠ [] := by
   refine ⟨(insertPred p i k t)[i]'(by simp [insertPred]; exact hi), List.getElem_mem _, ?_⟩
@@ -695,16 +722,7 @@ theorem true_pred_default_choice (frags : List Frag) (hok : Frags.FragsOk frags)
       unfold singleSupports; rw [hlen]; exact beq_false_of_ne (by omega)
     have hs : simpleSupports (insertPred (Frags.normPath frags) i k t) = false := by
       obtain ⟨s, hs, hp⟩ := insertPred_preds (Frags.normPath frags) i k t hi
-      cases hq : insertPred (Frags.normPath frags) i k t with
-      | nil => rfl
-      | cons s0 rest =>
-        rw [hq] at hs
-        simp only [simpleSupports, Bool.and_eq_false_iff]
-        right
-        rw [List.all_eq_false]
-        refine ⟨s, hs, ?_⟩
-        have : s.preds.isEmpty = false := by cases hsp : s.preds <;> simp_all
-        simp [this]
+      exact simpleSupports_false_of_preds _ s hs hp
     simp [chooseStrategy, ho, List.find?, Strategy.supports, h1, hs]
   have hc2 := Frags.chooses_simple frags hok h2
   refine ⟨⟨hc1, hc2⟩, ?_⟩
@@ -765,5 +783,638 @@ example : runTest (pathTest [pathSelfMerge] false (some .simple)).1 [] []
     (pathTest [pathSelfMerge] false (some .simple)).2
     (Node.elem ⟨[], ['r']⟩ [] [Node.elem ⟨[], ['a']⟩ [] [Node.elem ⟨[], ['b']⟩ [] []]]).flatten
     = [.none, .none, .bool true, .none, .none, .none] := by decide +kernel
+
+/-! ## Pattern mode for every supported spelling -/
+
+theorem RR_patOf (ns : NsMap) (xvs : Ref.XVars) (p : LocPath) (c t : Ref.LNode) :
+    RR ns xvs (Frags.patOf p) 0 c t = Ref.reach ns xvs (Frags.patOf p) c t := by
+  cases p with
+  | nil => rfl
+  | cons s q => simp [RR, pathAt, Frags.patOf, convAxis, withAxis]
+
+/-- **simple_eq_generic in pattern mode for every supported spelling without an attribute
+    step** (`Path.test(ignore_context=True)`, what match templates use): ANY non-empty path over
+    the child / descendant / descendant-or-self / self axes, `self::` steps anywhere, name /
+    `text()` / `comment()` tests, no predicates.  SimplePathStrategy (with the fragments
+    `__init__` computes from `p`) and GenericStrategy report the same at every event, both
+    caller behaviours, every element tree: both mark the nodes
+    `descendant-or-self::first/rest` selects from the root — Generic by `gSteps_sstep_pattern` /
+    `generic_nonpos_marks`, Simple by `simple_marks_pattern` for the fragment list, whose pattern
+    path selects the same nodes by the induction along `__init__`'s loop with
+    `pre = [descendant-or-self::first]` (`Frags.fragments_sem_pattern`); when `__init__` finds the
+    path impossible (`fragments = None`) neither reports anything. -/
+theorem simple_eq_generic_spellings_pattern (p : LocPath) (hp : ∀ s ∈ p, Frags.SStep s) (hne : p ≠ [])
+    (ns : NsMap) (vs : Vars) (skip : Bool)
+    (tag : QName) (attrs : AttrList) (kids : List Node)
+    (hcl : (Node.elem tag attrs kids).clean = true)
+    (hn : AllNodes (NodeFor p ns vs) (.elem tag attrs kids)) :
+    traceCaller (pathTest [p] true (some .simple)).1 ns vs skip
+        (pathTest [p] true (some .simple)).2 (Node.elem tag attrs kids).flatten
+      = traceCaller (pathTest [p] true (some .generic)).1 ns vs skip
+        (pathTest [p] true (some .generic)).2 (Node.elem tag attrs kids).flatten := by
+  have hkcl : cleanList kids = true := by simpa [Node.clean] using hcl
+  have hpp := Frags.sstep_patOf p hp
+  have hpne : Frags.patOf p ≠ [] := by cases p <;> simp_all [Frags.patOf]
+  have hS := Frags.stepsOk_of_sstep ns vs (Frags.patOf p) hpp hpne
+  have hN : AllNodes (NodeFor (Frags.patOf p) ns vs) (.elem tag attrs kids) := by
+    refine AllNodes.imp (fun n h => ?_) _ hn
+    obtain ⟨h1, h2, h3, _⟩ := h
+    refine ⟨h1, h2, h3, ?_⟩
+    intro s hs q hq
+    rw [(hpp s hs).1] at hq; simp at hq
+  have hokG := okVals_run _ (gStep_out (Frags.patOf p) ns vs (fun e => hS.lastResult ns vs e))
+    (Node.elem tag attrs kids) [] gInit
+  have hsem := Frags.fragments_sem_pattern ns (toXVars vs) p hp hne
+  have hsem0 := Frags.fragments_sem ns (toXVars vs) p hp hne
+  simp only [traceCaller, pathTest, List.map_cons, List.map_nil, mkMatcher]
+  congr 1
+  rw [Frags.runTest_simpleL, runTest_generic, Frags.gSteps_sstep_pattern p hp]
+  cases hf : fragments p with
+  | none =>
+    rw [hf] at hsem
+    simp only at hsem
+    obtain ⟨o1, o2⟩ := okVals_replicate (eventLocs (.elem tag attrs kids) [])
+    rw [eventLocs_length] at o1 o2
+    rw [Frags.run_none]
+    apply vals_eq_of_marks (eventLocs (.elem tag attrs kids) []) _ _ o1 hokG (eventLocs_nodup _ [])
+    intro x
+    rw [o2 x, generic_nonpos_marks ns vs _ hS _ hcl hN ⟨x, .elem tag attrs kids⟩, RR_patOf, hsem]
+  | some out =>
+    rw [hf] at hsem hsem0
+    simp only at hsem hsem0
+    obtain ⟨s1, s2⟩ := Frags.simple_marks_pattern ns (toXVars vs) out hsem0.1 tag attrs kids hkcl
+    apply vals_eq_of_marks (eventLocs (.elem tag attrs kids) []) _ _ s1 hokG (eventLocs_nodup _ [])
+    intro x
+    apply Bool.eq_iff_iff.mpr
+    rw [s2 ⟨x, .elem tag attrs kids⟩, generic_nonpos_marks ns vs _ hS _ hcl hN ⟨x, .elem tag attrs kids⟩, RR_patOf,
+      hsem]
+
+-- non-vacuity: the pattern `descendant::a/self::a/b` on <r><x><a><b/></a></x></r> matches the <b/>
+example : runTest (pathTest [pathSelfMerge] true (some .simple)).1 [] []
+    (pathTest [pathSelfMerge] true (some .simple)).2
+    (Node.elem ⟨[], ['r']⟩ [] [Node.elem ⟨[], ['x']⟩ [] [Node.elem ⟨[], ['a']⟩ [] [Node.elem ⟨[], ['b']⟩ [] []]]]).flatten
+    = [.none, .none, .none, .bool true, .none, .none, .none, .none] := by decide +kernel
+
+/-! ## A final attribute step; the full statement -/
+
+theorem gSteps_snoc_attr_pattern (q : LocPath) (hq : ∀ s ∈ q, Frags.SStep s) (hne : q ≠ []) (a : Step)
+    (ha : a.axis = .attribute) : gSteps (q ++ [a]) true = Frags.patOf q ++ [a] := by
+  cases q with
+  | nil => exact absurd rfl hne
+  | cons s0 q' =>
+    obtain ⟨hp0, hsim, hna⟩ := hq s0 List.mem_cons_self
+    obtain ⟨ax, g, preds⟩ := s0
+    simp only at hp0 hsim hna
+    subst hp0
+    have hsd : ∀ r : LocPath, stripDot (⟨ax, g, []⟩ :: r) = ⟨ax, g, []⟩ :: r := by
+      intro r
+      cases r with
+      | nil => rfl
+      | cons x xs => rcases Kmp.simpleT_cases g hsim with ⟨n, rfl⟩ | rfl | rfl <;> simp [stripDot]
+    have hax : (ax == Axis.attribute) = false := by cases ax <;> simp_all
+    simp [gSteps, hsd, hax, Frags.patOf]
+
+/-- **simple_eq_generic with a final attribute step**: `q/@a` for ANY supported spelling `q`
+    (child / descendant / descendant-or-self / self steps in any order — so also after a KMP
+    fragment: `descendant::a/b/@x`, `a//b/c/@x` —, name / `text()` / `comment()` tests) and any
+    attribute step `a`, BOTH modes, both caller behaviours, every element tree:
+    SimplePathStrategy reports at every event what GenericStrategy reports.
+
+    Simple: `__init__` stores the attribute test in the last fragment of the list it builds for
+    `q` (`fragments_snoc_attr`); the matcher never looks at it except to form the result
+    (`icLoop_setAttr`, `pStep_setAttr`: induction over the run with the invariant "the entries
+    on the stack point to non-empty fragments"), so the run is the run on `q` with `True`
+    replaced by the non-empty value of the attribute test (`simple_attr_trace`; "or None" is
+    genshi fix ef611bc).  Generic: `attr_run` — the run on the steps before the attribute step,
+    gated the same way.  Both runs on `q` mark the XPath node set of `q` in the given mode
+    (`simple_spelling_marks`, `RR_attrBase` / `RR_patOf`). -/
+theorem simple_eq_generic_attr (q : LocPath) (hq : ∀ s ∈ q, Frags.SStep s) (hne : q ≠ []) (a : Step)
+    (ha : a.axis = .attribute) (ic : Bool)
+    (ns : NsMap) (vs : Vars) (skip : Bool)
+    (tag : QName) (attrs : AttrList) (kids : List Node)
+    (hcl : (Node.elem tag attrs kids).clean = true)
+    (hn : AllNodes (NodeFor q ns vs) (.elem tag attrs kids)) :
+    traceCaller (pathTest [q ++ [a]] ic (some .simple)).1 ns vs skip
+        (pathTest [q ++ [a]] ic (some .simple)).2 (Node.elem tag attrs kids).flatten
+      = traceCaller (pathTest [q ++ [a]] ic (some .generic)).1 ns vs skip
+        (pathTest [q ++ [a]] ic (some .generic)).2 (Node.elem tag attrs kids).flatten := by
+  have hkcl : cleanList kids = true := by simpa [Node.clean] using hcl
+  have hSq := Frags.stepsOk_of_sstep ns vs q hq hne
+  obtain ⟨m1, m2⟩ := Frags.simple_spelling_marks ns (toXVars vs) ic q hq hne tag attrs kids hkcl
+  simp only [traceCaller, pathTest, List.map_cons, List.map_nil, mkMatcher]
+  congr 1
+  rw [Frags.runTest_simpleL, runTest_generic, Frags.simple_attr_trace ns (toXVars vs) q hq hne a ha ic,
+    vals_of_marks _ _ m1 (eventLocs_nodup _ []), gateS_fun]
+  cases ic with
+  | false =>
+    rw [gSteps_snoc_attr q a ha,
+      attr_run ns vs (attrBase q) a (stepsOk_attrBase ns vs q (Or.inr hSq)) ha _ hcl
+        (AllNodes.imp (fun n h => nodeFor_attrBase ns vs q n h) _ hn)]
+    congr 1
+    apply markVals_congr
+    intro x
+    rw [m2 x, RR_attrBase ns vs q (Or.inr hSq)]
+    rfl
+  | true =>
+    have hpp := Frags.sstep_patOf q hq
+    have hpne : Frags.patOf q ≠ [] := by cases q <;> simp_all [Frags.patOf]
+    have hS := Frags.stepsOk_of_sstep ns vs (Frags.patOf q) hpp hpne
+    have hN : AllNodes (NodeFor (Frags.patOf q) ns vs) (.elem tag attrs kids) := by
+      refine AllNodes.imp (fun n h => ?_) _ hn
+      obtain ⟨h1, h2, h3, _⟩ := h
+      refine ⟨h1, h2, h3, ?_⟩
+      intro s hs p hp
+      rw [(hpp s hs).1] at hp; simp at hp
+    rw [gSteps_snoc_attr_pattern q hq hne a ha, attr_run ns vs (Frags.patOf q) a hS ha _ hcl hN]
+    congr 1
+    apply markVals_congr
+    intro x
+    rw [m2 x, RR_patOf]
+    rfl
+
+/-- `descendant::a/b/@x`: a KMP fragment, then an attribute step -/
+def pathKmpAttr : LocPath :=
+  [⟨.descendant, .localName false ['a'], []⟩, ⟨.child, .localName false ['b'], []⟩,
+   ⟨.attribute, .localName true ['x'], []⟩]
+
+-- non-vacuity: on <r><a><a><b x="1"/></a></a></r> the attribute of the <b> is reported
+example : fragments pathKmpAttr
+    = some [⟨[], [], none, false⟩,
+            ⟨[.localName false ['a'], .localName false ['b']], [0, 0], some (.localName true ['x']), false⟩] := by decide
+example : runTest (pathTest [pathKmpAttr] false (some .simple)).1 [] []
+    (pathTest [pathKmpAttr] false (some .simple)).2
+    (Node.elem ⟨[], ['r']⟩ [] [Node.elem ⟨[], ['a']⟩ [] [Node.elem ⟨[], ['a']⟩ []
+      [Node.elem ⟨[], ['b']⟩ [(⟨[], ['x']⟩, ['1'])] []]]]).flatten
+    = [.none, .none, .none, .attrs [(⟨[], ['x']⟩, ['1'])], .none, .none, .none, .none] := by decide +kernel
+
+/-- the shapes `SimplePathStrategy.supports` accepts: a supported spelling, optionally followed
+    by one attribute step (`hpt`: what the parser guarantees — a name test off the attribute
+    axis carries the element principal type) -/
+theorem supports_cases (p : LocPath) (hsup : simpleSupports p = true)
+    (hpt : ∀ s ∈ p, s.axis ≠ .attribute → s.test.attrFlag = false) :
+    ((∀ s ∈ p, Frags.SStep s) ∧ p ≠ []) ∨
+    ∃ q a, p = q ++ [a] ∧ (∀ s ∈ q, Frags.SStep s) ∧ q ≠ [] ∧ a.axis = .attribute := by
+  cases p with
+  | nil => simp [simpleSupports] at hsup
+  | cons s0 rest =>
+    simp only [simpleSupports, Bool.and_eq_true, List.all_eq_true, bne_iff_ne, ne_eq] at hsup
+    obtain ⟨⟨h0, hall⟩, hdl⟩ := hsup
+    have hss : ∀ s ∈ s0 :: rest, s.axis ≠ .attribute → Frags.SStep s := by
+      intro s hs hax
+      have h1 := hall s hs
+      have h2 := hpt s hs hax
+      simp only [Bool.and_eq_true, List.isEmpty_iff] at h1
+      refine ⟨h1.1, ?_, hax⟩
+      cases ht : s.test <;> simp_all [Kmp.simpleT, NodeTest.attrFlag]
+    have hsplit : s0 :: rest = (s0 :: rest).dropLast ++ [(s0 :: rest).getLast (by simp)] :=
+      (List.dropLast_concat_getLast (by simp)).symm
+    by_cases hlast : ((s0 :: rest).getLast (by simp)).axis = .attribute
+    · refine Or.inr ⟨_, _, hsplit, fun s hs => hss s (List.dropLast_subset _ hs) (hdl s hs), ?_, hlast⟩
+      cases rest with
+      | nil => simp at hlast; exact absurd hlast h0
+      | cons r rs => simp
+    · refine Or.inl ⟨fun s hs => hss s hs ?_, by simp⟩
+      rw [hsplit] at hs
+      rcases List.mem_append.mp hs with h | h
+      · exact hdl s h
+      · simp only [List.mem_singleton] at h
+        rw [h]; exact hlast
+
+/-- **simple_eq_generic** — the full statement.  For EVERY location path
+    `SimplePathStrategy.supports` accepts (name / `text()` / `comment()` tests, no predicates,
+    any mixture of child, descendant, descendant-or-self and self steps, an optional final
+    attribute step; after genshi fix e131362 an attribute step in front of another step is no
+    longer accepted), BOTH modes (`ignore_context`), both caller behaviours and every element
+    tree, SimplePathStrategy reports, event by event, exactly what GenericStrategy reports.
+    (`simple_eq_generic_spellings_partial`, `simple_eq_generic_spellings_pattern`,
+    `simple_eq_generic_attr`, joined by `supports_cases`.)
+    Hypotheses: the parser's typing of name tests (`hpt`); on the tree as in
+    `equivalent_spellings_agree` (one element, `clean`, `NodeFor`: vacuous here — no predicates). -/
+theorem simple_eq_generic (p : LocPath) (hsup : simpleSupports p = true)
+    (hpt : ∀ s ∈ p, s.axis ≠ .attribute → s.test.attrFlag = false) (ic : Bool)
+    (ns : NsMap) (vs : Vars) (skip : Bool)
+    (tag : QName) (attrs : AttrList) (kids : List Node)
+    (hcl : (Node.elem tag attrs kids).clean = true)
+    (hn : AllNodes (NodeFor p ns vs) (.elem tag attrs kids)) :
+    traceCaller (pathTest [p] ic (some .simple)).1 ns vs skip
+        (pathTest [p] ic (some .simple)).2 (Node.elem tag attrs kids).flatten
+      = traceCaller (pathTest [p] ic (some .generic)).1 ns vs skip
+        (pathTest [p] ic (some .generic)).2 (Node.elem tag attrs kids).flatten := by
+  rcases supports_cases p hsup hpt with ⟨hp, hne⟩ | ⟨q, a, rfl, hq, hne, ha⟩
+  · cases ic with
+    | false => exact simple_eq_generic_spellings_partial p hp hne ns vs skip tag attrs kids hcl hn
+    | true => exact simple_eq_generic_spellings_pattern p hp hne ns vs skip tag attrs kids hcl hn
+  · refine simple_eq_generic_attr q hq hne a ha ic ns vs skip tag attrs kids hcl ?_
+    refine AllNodes.imp (fun n h => ?_) _ hn
+    obtain ⟨h1, h2, h3, h4⟩ := h
+    exact ⟨h1, h2, h3, fun s hs => h4 s (List.mem_append_left _ hs)⟩
+
+-- non-vacuity: the hypotheses hold of `descendant::a/b/@x`
+example : simpleSupports pathKmpAttr = true := by decide
+example : ∀ s ∈ pathKmpAttr, s.axis ≠ .attribute → s.test.attrFlag = false := by decide
+
+/-- `a/@b/c` — an attribute step in front of another step: `SimplePathStrategy.__init__` stops
+    reading at the attribute step and would report the `b` attributes of `a`, GenericStrategy
+    (and XPath) nothing; since fix e131362 `supports` rejects the path (fixed finding
+    C17-simple-interior-attribute) -/
+def pathInteriorAttr : LocPath :=
+  [⟨.child, .localName false ['a'], []⟩, ⟨.attribute, .localName true ['b'], []⟩, ⟨.child, .localName false ['c'], []⟩]
+
+theorem interior_attribute_not_simple :
+    simpleSupports pathInteriorAttr = false ∧ chooseStrategy pathInteriorAttr = some .generic ∧
+    runTest (pathTest [pathInteriorAttr] false (some .simple)).1 [] [] (pathTest [pathInteriorAttr] false (some .simple)).2
+        (Node.elem ⟨[], ['r']⟩ [] [Node.elem ⟨[], ['a']⟩ [(⟨[], ['b']⟩, ['1'])] []]).flatten
+      = [.none, .attrs [(⟨[], ['b']⟩, ['1'])], .none, .none] ∧
+    runTest (pathTest [pathInteriorAttr] false (some .generic)).1 [] [] (pathTest [pathInteriorAttr] false (some .generic)).2
+        (Node.elem ⟨[], ['r']⟩ [] [Node.elem ⟨[], ['a']⟩ [(⟨[], ['b']⟩, ['1'])] []]).flatten
+      = [.none, .none, .none, .none] := by decide +kernel
+
+/-! ## `./p`, `p[true-pred]` and `p` with the strategies `Path.__init__` picks — both modes, every supported path -/
+
+theorem first_test_of_supports (p : LocPath) (hsup : simpleSupports p = true) :
+    ∃ s0 rest, p = s0 :: rest ∧ s0.test ≠ .node ∧ s0.axis ≠ .attribute := by
+  cases p with
+  | nil => simp [simpleSupports] at hsup
+  | cons s0 rest =>
+    simp only [simpleSupports, Bool.and_eq_true, List.all_eq_true, bne_iff_ne, ne_eq] at hsup
+    obtain ⟨⟨h0, hall⟩, _⟩ := hsup
+    have h1 := hall s0 List.mem_cons_self
+    refine ⟨s0, rest, rfl, ?_, h0⟩
+    intro hn; rw [hn] at h1; simp at h1
+
+theorem stripDot_id (s0 : Step) (rest : LocPath) (h : s0.test ≠ .node) : stripDot (s0 :: rest) = s0 :: rest := by
+  cases rest with
+  | nil => rfl
+  | cons x xs =>
+    have : (s0.test == NodeTest.node) = false := by simpa using h
+    simp [stripDot, this]
+
+theorem chooses_simple_of_supports (p : LocPath) (hsup : simpleSupports p = true) (h2 : 2 ≤ p.length) :
+    chooseStrategy p = some .simple := by
+  have ho : strategyOrder = [.single, .simple, .generic] := by decide
+  have h1 : singleSupports p = false := by unfold singleSupports; exact beq_false_of_ne (by omega)
+  simp [chooseStrategy, ho, List.find?, Strategy.supports, h1, hsup]
+
+theorem chooses_generic_dot (p : LocPath) (hne : p ≠ []) : chooseStrategy (dot :: p) = some .generic := by
+  have ho : strategyOrder = [.single, .simple, .generic] := by decide
+  have h1 : singleSupports (dot :: p) = false := by
+    cases p with
+    | nil => exact absurd rfl hne
+    | cons a l => simp [singleSupports]
+  have hs : simpleSupports (dot :: p) = false := by simp [simpleSupports, dot]
+  simp [chooseStrategy, ho, List.find?, Strategy.supports, h1, hs]
+
+theorem all2_gSteps_pattern (ns : NsMap) (vs : Vars) (p1 p2 : LocPath) (h : All2 (StepEq ns vs) p1 p2)
+    (hnode : ∀ s0 rest, p2 = s0 :: rest → s0.test ≠ .node) :
+    All2 (StepEq ns vs) (gSteps p1 true) (gSteps p2 true) := by
+  cases h with
+  | nil => simp [gSteps, stripDot]; exact All2.nil
+  | @cons a b l l' hab hl =>
+    have hb := hnode b l' rfl
+    have ha : a.test ≠ .node := by rw [hab.2.1]; exact hb
+    have hax : a.axis = b.axis := hab.1
+    simp only [gSteps, if_true, stripDot_id a l ha, stripDot_id b l' hb, hax]
+    split
+    · exact All2.cons (StepEq.refl ns vs dotSlashSlash) (All2.cons hab hl)
+    · exact All2.cons ⟨rfl, hab.2.1, hab.2.2.1, hab.2.2.2⟩ hl
+
+/-- **true_pred_irrelevant with the strategies `Path.__init__` picks, in full**: for EVERY
+    path `p` of two or more steps that SimplePathStrategy supports (a final attribute step
+    included), BOTH modes, an always-true non-positional predicate `t` inserted anywhere:
+    `Path.__init__` hands `p` to SimplePathStrategy and the decorated path to GenericStrategy,
+    and the two report the same at every event (`gStep_congr` through `gSteps` in either mode,
+    then `simple_eq_generic`). -/
+theorem true_pred_default_choice_full (p : LocPath) (hsup : simpleSupports p = true)
+    (hpt : ∀ s ∈ p, s.axis ≠ .attribute → s.test.attrFlag = false) (h2 : 2 ≤ p.length) (ic : Bool)
+    (ns : NsMap) (vs : Vars) (t : Expr) (ht : AlwaysTrue ns vs t) (i k : Nat) (hi : i < p.length)
+    (skip : Bool) (tag : QName) (attrs : AttrList) (kids : List Node)
+    (hcl : (Node.elem tag attrs kids).clean = true)
+    (hn : AllNodes (NodeFor p ns vs) (.elem tag attrs kids)) :
+    (chooseStrategy (insertPred p i k t) = some .generic ∧ chooseStrategy p = some .simple) ∧
+    traceCaller (pathTest [insertPred p i k t] ic).1 ns vs skip
+        (pathTest [insertPred p i k t] ic).2 (Node.elem tag attrs kids).flatten
+      = traceCaller (pathTest [p] ic).1 ns vs skip
+        (pathTest [p] ic).2 (Node.elem tag attrs kids).flatten := by
+  have ho : strategyOrder = [.single, .simple, .generic] := by decide
+  have hlen : (insertPred p i k t).length = p.length := by simp [insertPred]
+  have hc1 : chooseStrategy (insertPred p i k t) = some .generic := by
+    have h1 : singleSupports (insertPred p i k t) = false := by
+      unfold singleSupports; rw [hlen]; exact beq_false_of_ne (by omega)
+    have hs : simpleSupports (insertPred p i k t) = false := by
+      obtain ⟨s, hs, hp⟩ := insertPred_preds p i k t hi
+      exact simpleSupports_false_of_preds _ s hs hp
+    simp [chooseStrategy, ho, List.find?, Strategy.supports, h1, hs]
+  have hc2 := chooses_simple_of_supports p hsup h2
+  refine ⟨⟨hc1, hc2⟩, ?_⟩
+  have e2 := simple_eq_generic p hsup hpt ic ns vs skip tag attrs kids hcl hn
+  have hstep : gStep (gSteps (insertPred p i k t) ic) ns vs = gStep (gSteps p ic) ns vs := by
+    funext st e
+    cases ic with
+    | false => exact gStep_congr ns vs _ _ (all2_gSteps ns vs _ _ (all2_insert ns vs t ht k _ i)) st e
+    | true =>
+      refine gStep_congr ns vs _ _ (all2_gSteps_pattern ns vs _ _ (all2_insert ns vs t ht k _ i) ?_) st e
+      intro s0 rest h
+      obtain ⟨s0', rest', h', hnode, _⟩ := first_test_of_supports p hsup
+      rw [h'] at h; cases h; exact hnode
+  simp only [pathTest, List.map_cons, List.map_nil, hc1, hc2, Option.getD_some, mkMatcher, traceCaller] at e2 ⊢
+  rw [e2, runTest_generic, runTest_generic, hstep]
+
+/-- **`./p` and `p` as patterns, with the strategies `Path.__init__` picks**: for every path `p`
+    of two or more steps that SimplePathStrategy supports, `Path.__init__` hands `./p` to
+    GenericStrategy, which drops the leading `./` in pattern mode (`stripDot`, genshi fix
+    b90ae9a), and `p` to SimplePathStrategy — same result at every event (`simple_eq_generic`). -/
+theorem self_prefix_default_choice_pattern (p : LocPath) (hsup : simpleSupports p = true)
+    (hpt : ∀ s ∈ p, s.axis ≠ .attribute → s.test.attrFlag = false) (h2 : 2 ≤ p.length)
+    (ns : NsMap) (vs : Vars) (skip : Bool)
+    (tag : QName) (attrs : AttrList) (kids : List Node)
+    (hcl : (Node.elem tag attrs kids).clean = true)
+    (hn : AllNodes (NodeFor p ns vs) (.elem tag attrs kids)) :
+    (chooseStrategy (dot :: p) = some .generic ∧ chooseStrategy p = some .simple) ∧
+    traceCaller (pathTest [dot :: p] true).1 ns vs skip
+        (pathTest [dot :: p] true).2 (Node.elem tag attrs kids).flatten
+      = traceCaller (pathTest [p] true).1 ns vs skip
+        (pathTest [p] true).2 (Node.elem tag attrs kids).flatten := by
+  have hne : p ≠ [] := by intro h; rw [h] at h2; simp at h2
+  have hc1 := chooses_generic_dot p hne
+  have hc2 := chooses_simple_of_supports p hsup h2
+  refine ⟨⟨hc1, hc2⟩, ?_⟩
+  have e2 := simple_eq_generic p hsup hpt true ns vs skip tag attrs kids hcl hn
+  have hg : gSteps (dot :: p) true = gSteps p true := by
+    cases p with
+    | nil => exact absurd rfl hne
+    | cons s1 rest => simp [gSteps, stripDot, dot]
+  simp only [pathTest, List.map_cons, List.map_nil, hc1, hc2, Option.getD_some, mkMatcher, traceCaller] at e2 ⊢
+  rw [e2, hg]
+
+-- non-vacuity: `./descendant::a/b/@x` and `descendant::a/b/@x` as patterns
+example : 2 ≤ pathKmpAttr.length := by decide
+example : runTest (pathTest [dot :: pathKmpAttr] true).1 [] [] (pathTest [dot :: pathKmpAttr] true).2
+    (Node.elem ⟨[], ['a']⟩ [] [Node.elem ⟨[], ['b']⟩ [(⟨[], ['x']⟩, ['1'])] []]).flatten
+    = [.none, .attrs [(⟨[], ['x']⟩, ['1'])], .none, .none] := by decide +kernel
+
+/-! ## Pattern mode with position tests: `./p` and always-true predicates under GenericStrategy -/
+
+/-- **`./p` ≡ `p` as patterns, in full** — every non-empty location path `p` (any axes, any
+    tests, any predicates, positional ones included), both caller behaviours, EVERY stream (no
+    hypothesis on it): in pattern mode GenericStrategy drops the leading `./` before matching
+    (`stripDot`, genshi fix b90ae9a), so the two matchers run on the same step list. -/
+theorem self_prefix_irrelevant_pattern (p : LocPath) (hne : p ≠ []) (ns : NsMap) (vs : Vars) (skip : Bool)
+    (es : List Event) :
+    traceCaller (pathTest [dot :: p] true (some .generic)).1 ns vs skip
+        (pathTest [dot :: p] true (some .generic)).2 es
+      = traceCaller (pathTest [p] true (some .generic)).1 ns vs skip
+        (pathTest [p] true (some .generic)).2 es := by
+  have hg : gSteps (dot :: p) true = gSteps p true := by
+    cases p with
+    | nil => exact absurd rfl hne
+    | cons s1 rest => simp [gSteps, stripDot, dot]
+  simp only [pathTest, List.map_cons, List.map_nil, mkMatcher, hg]
+
+theorem all2_gSteps_pattern' (ns : NsMap) (vs : Vars) (p1 p2 : LocPath) (h : All2 (StepEq ns vs) p1 p2)
+    (h1 : stripDot p1 = p1) (h2 : stripDot p2 = p2) :
+    All2 (StepEq ns vs) (gSteps p1 true) (gSteps p2 true) := by
+  cases h with
+  | nil => simp [gSteps, stripDot]; exact All2.nil
+  | @cons a b l l' hab hl =>
+    have hax : a.axis = b.axis := hab.1
+    simp only [gSteps, if_true, h1, h2, hax]
+    split
+    · exact All2.cons (StepEq.refl ns vs dotSlashSlash) (All2.cons hab hl)
+    · exact All2.cons ⟨rfl, hab.2.1, hab.2.2.1, hab.2.2.2⟩ hl
+
+/-- a bare `.` (`self::node()` without predicates) in front of further steps -/
+def BareDotFirst (p : LocPath) : Prop :=
+  ∃ s0 s1 rest, p = s0 :: s1 :: rest ∧ s0.axis = .self ∧ s0.preds = [] ∧ s0.test = .node
+
+theorem stripDot_of_not_bare (p : LocPath) (h : ¬ BareDotFirst p) : stripDot p = p := by
+  cases p with
+  | nil => rfl
+  | cons s0 r =>
+    cases r with
+    | nil => rfl
+    | cons s1 rest =>
+      simp only [stripDot]
+      split
+      · rename_i hc
+        simp only [Bool.and_eq_true, beq_iff_eq, List.isEmpty_iff] at hc
+        exact absurd ⟨s0, s1, rest, rfl, hc.1.1, hc.1.2, hc.2⟩ h
+      · rfl
+
+theorem insertPred_not_bare (p : LocPath) (i k : Nat) (t : Expr) (h : ¬ BareDotFirst p) :
+    ¬ BareDotFirst (insertPred p i k t) := by
+  rintro ⟨s0, s1, rest, hq, hax, hpr, hte⟩
+  cases p with
+  | nil => simp [insertPred] at hq
+  | cons a r =>
+    cases r with
+    | nil => simp [insertPred] at hq
+    | cons b r' =>
+      simp only [insertPred, List.mapIdx_cons, List.cons.injEq] at hq
+      obtain ⟨hq0, _, _⟩ := hq
+      by_cases hi : (0 == i) = true
+      · simp only [hi, if_true] at hq0
+        rw [← hq0] at hpr
+        simp at hpr
+      · simp only [hi, Bool.false_eq_true, if_false] at hq0
+        subst hq0
+        exact h ⟨a, b, r', rfl, hax, hpr, hte⟩
+
+/-- **an always-true predicate is irrelevant in pattern mode too** — every location path whose
+    first step is not a bare `.` (any predicates, positional ones included; an always-true
+    predicate on a leading bare `.` keeps that step from being dropped and moves the counting
+    of a position test on the next step: finding C17-pattern-first-step-position), `[t]`
+    inserted anywhere, EVERY stream: GenericStrategy as a pattern goes through the same states
+    and reports the same at every event. -/
+theorem true_pred_irrelevant_pattern (ns : NsMap) (vs : Vars) (t : Expr) (ht : AlwaysTrue ns vs t)
+    (p : LocPath) (hnb : ¬ BareDotFirst p) (i k : Nat) (skip : Bool) (es : List Event) :
+    (∀ (st : GState) (e : Event),
+        gStep (gSteps (insertPred p i k t) true) ns vs st e = gStep (gSteps p true) ns vs st e) ∧
+    traceCaller (pathTest [insertPred p i k t] true (some .generic)).1 ns vs skip
+        (pathTest [insertPred p i k t] true (some .generic)).2 es
+      = traceCaller (pathTest [p] true (some .generic)).1 ns vs skip
+        (pathTest [p] true (some .generic)).2 es := by
+  have hstep : gStep (gSteps (insertPred p i k t) true) ns vs = gStep (gSteps p true) ns vs := by
+    funext st e
+    exact gStep_congr ns vs _ _ (all2_gSteps_pattern' ns vs _ _ (all2_insert ns vs t ht k p i)
+      (stripDot_of_not_bare _ (insertPred_not_bare p i k t hnb)) (stripDot_of_not_bare _ hnb)) st e
+  refine ⟨fun st e => by rw [hstep], ?_⟩
+  simp only [pathTest, List.map_cons, List.map_nil, mkMatcher, traceCaller]
+  rw [runTest_generic, runTest_generic, hstep]
+
+-- non-vacuity: `b[2]` is not a bare-dot path; `.[true()]/b` is excluded
+example : ¬ BareDotFirst pathB2 := by
+  rintro ⟨s0, s1, rest, h, _⟩; simp [pathB2] at h
+
+/-- **`./p` ≡ `p` as patterns with the strategies `Path.__init__` picks, for EVERY path**: `./p`
+    goes to GenericStrategy; `p` to SingleStepStrategy (one step: `single_eq_generic`, position
+    tests included), SimplePathStrategy (`simple_eq_generic`) or GenericStrategy — same result at
+    every event of every element tree, both caller behaviours. -/
+theorem self_prefix_pattern_default (p : LocPath) (hne : p ≠ [])
+    (hpt : ∀ s ∈ p, s.axis ≠ .attribute → s.test.attrFlag = false)
+    (ns : NsMap) (vs : Vars) (skip : Bool)
+    (tag : QName) (attrs : AttrList) (kids : List Node)
+    (hcl : (Node.elem tag attrs kids).clean = true)
+    (hn : AllNodes (NodeFor p ns vs) (.elem tag attrs kids)) :
+    traceCaller (pathTest [dot :: p] true).1 ns vs skip
+        (pathTest [dot :: p] true).2 (Node.elem tag attrs kids).flatten
+      = traceCaller (pathTest [p] true).1 ns vs skip
+        (pathTest [p] true).2 (Node.elem tag attrs kids).flatten := by
+  have ho : strategyOrder = [.single, .simple, .generic] := by decide
+  have hc1 := chooses_generic_dot p hne
+  have e0 := self_prefix_irrelevant_pattern p hne ns vs skip (Node.elem tag attrs kids).flatten
+  have hd : pathTest [dot :: p] true = pathTest [dot :: p] true (some .generic) := by
+    simp only [pathTest, List.map_cons, List.map_nil, hc1, Option.getD_some]
+  rw [hd, e0]
+  by_cases h1 : p.length = 1
+  · -- one step: SingleStepStrategy
+    obtain ⟨s, rfl⟩ : ∃ s, p = [s] := by
+      cases p with
+      | nil => exact absurd rfl hne
+      | cons s r => cases r with
+        | nil => exact ⟨s, rfl⟩
+        | cons _ _ => simp at h1
+    have hc : chooseStrategy [s] = some .single := by
+      simp [chooseStrategy, ho, List.find?, Strategy.supports, singleSupports]
+    have hok : okList kids = true := by
+      have := ok_of_clean _ hcl
+      simpa [Node.ok] using this
+    have e1 := single_eq_generic s true skip ns vs tag attrs kids hok
+    have hd2 : pathTest [[s]] true = pathTest [[s]] true (some .single) := by
+      simp only [pathTest, List.map_cons, List.map_nil, hc, Option.getD_some]
+    rw [hd2, e1]
+  · have hs1 : singleSupports p = false := by unfold singleSupports; exact beq_false_of_ne h1
+    by_cases hsup : simpleSupports p = true
+    · have hc : chooseStrategy p = some .simple := by
+        simp [chooseStrategy, ho, List.find?, Strategy.supports, hs1, hsup]
+      have e2 := simple_eq_generic p hsup hpt true ns vs skip tag attrs kids hcl hn
+      have hd2 : pathTest [p] true = pathTest [p] true (some .simple) := by
+        simp only [pathTest, List.map_cons, List.map_nil, hc, Option.getD_some]
+      rw [hd2, e2]
+    · have hsup' : simpleSupports p = false := by simpa using hsup
+      have hc : chooseStrategy p = some .generic := by
+        simp [chooseStrategy, ho, List.find?, Strategy.supports, hs1, hsup']
+      have hd2 : pathTest [p] true = pathTest [p] true (some .generic) := by
+        simp only [pathTest, List.map_cons, List.map_nil, hc, Option.getD_some]
+      rw [hd2]
+
+/-! ## `./q/@a` and `q/@a` in relative mode -/
+
+theorem stepsOk_dot (ns : NsMap) (vs : Vars) (p : LocPath) (hp : StepsOk ns vs p) : StepsOk ns vs (dot :: p) := by
+  refine ⟨by simp, ?_, ?_, ?_, ?_⟩
+  · intro s hs
+    rcases List.mem_cons.mp hs with h | h
+    · subst h; simp [dot]
+    · exact hp.na s h
+  · intro s hs
+    rcases List.mem_cons.mp hs with h | h
+    · subst h; simp [dot, NodeTest.elemWf]
+    · exact hp.wf s h
+  · intro s hs
+    rcases List.mem_cons.mp hs with h | h
+    · subst h; simp [dot]
+    · exact hp.typed s h
+  · intro s hs
+    rcases List.mem_cons.mp hs with h | h
+    · subst h; simp [dot]
+    · exact hp.nonpos s h
+
+theorem nodeFor_dot (ns : NsMap) (vs : Vars) (p : LocPath) (n : Node) (h : NodeFor p ns vs n) :
+    NodeFor (dot :: p) ns vs n := by
+  obtain ⟨h1, h2, h3, h4⟩ := h
+  refine ⟨h1, h2, h3, ?_⟩
+  intro s hs
+  rcases List.mem_cons.mp hs with h | h
+  · subst h; intro q hq; simp [dot] at hq
+  · exact h4 s h
+
+/-- GenericStrategy on `q/@a` in relative mode, `q` without position tests: the attribute
+    selection at the nodes `q` reaches from the root -/
+theorem generic_attr_trace (q : LocPath) (a : Step) (ha : a.axis = .attribute) (ns : NsMap) (vs : Vars)
+    (hq : StepsOk ns vs q) (tag : QName) (attrs : AttrList) (kids : List Node)
+    (hcl : (Node.elem tag attrs kids).clean = true)
+    (hn : AllNodes (NodeFor q ns vs) (.elem tag attrs kids)) :
+    (runOne (gStep (gSteps (q ++ [a]) false) ns vs) gInit (Node.elem tag attrs kids).flatten).1
+      = List.zipWith (fun e v => gate (a.test.apply e ns) v) (Node.elem tag attrs kids).flatten
+          (markVals (fun x => Ref.reach ns (toXVars vs) q ⟨[], .elem tag attrs kids⟩ ⟨x, .elem tag attrs kids⟩)
+            (eventLocs (.elem tag attrs kids) [])) := by
+  rw [gSteps_snoc_attr q a ha,
+    attr_run ns vs (attrBase q) a (stepsOk_attrBase ns vs q (Or.inr hq)) ha _ hcl
+      (AllNodes.imp (fun n h => nodeFor_attrBase ns vs q n h) _ hn)]
+  congr 1
+  apply markVals_congr
+  intro x
+  rw [RR_attrBase ns vs q (Or.inr hq)]
+
+open Genshi.Path.Ref in
+/-- **`./q/@a` ≡ `q/@a`** in relative mode under GenericStrategy, `q` any non-empty path
+    without position tests (any axes, tests, predicates), `a` any attribute step, both caller
+    behaviours, every element tree — the companion of `self_prefix_irrelevant_nonpositional`
+    for paths that end in an attribute step. -/
+theorem self_prefix_irrelevant_attr (q : LocPath) (a : Step) (ha : a.axis = .attribute) (ns : NsMap) (vs : Vars)
+    (hq : StepsOk ns vs q) (tag : QName) (attrs : AttrList) (kids : List Node)
+    (hcl : (Node.elem tag attrs kids).clean = true)
+    (hn : AllNodes (NodeFor q ns vs) (.elem tag attrs kids)) (skip : Bool) :
+    traceCaller (pathTest [dot :: (q ++ [a])] false (some .generic)).1 ns vs skip
+        (pathTest [dot :: (q ++ [a])] false (some .generic)).2 (Node.elem tag attrs kids).flatten
+      = traceCaller (pathTest [q ++ [a]] false (some .generic)).1 ns vs skip
+        (pathTest [q ++ [a]] false (some .generic)).2 (Node.elem tag attrs kids).flatten := by
+  have e1 := generic_attr_trace (dot :: q) a ha ns vs (stepsOk_dot ns vs q hq) tag attrs kids hcl
+    (AllNodes.imp (fun n h => nodeFor_dot ns vs q n h) _ hn)
+  have e2 := generic_attr_trace q a ha ns vs hq tag attrs kids hcl hn
+  simp only [traceCaller, pathTest, List.map_cons, List.map_nil, mkMatcher]
+  rw [runTest_generic, runTest_generic]
+  rw [show dot :: (q ++ [a]) = (dot :: q) ++ [a] from rfl, e1, e2]
+  congr 2
+  apply markVals_congr
+  intro x
+  rw [reach_self ns (toXVars vs) dot q (by intro p hp; simp [dot] at hp) rfl]
+  simp [hitR, dot, Ref.testNode]
+
+/-- **`./p` and `p` with the strategies `Path.__init__` picks — both modes, every supported
+    path** (two or more steps; a final attribute step included): `./p` goes to GenericStrategy,
+    `p` to SimplePathStrategy, same result at every event. -/
+theorem self_prefix_default_choice_full (p : LocPath) (hsup : simpleSupports p = true)
+    (hpt : ∀ s ∈ p, s.axis ≠ .attribute → s.test.attrFlag = false) (h2 : 2 ≤ p.length) (ic : Bool)
+    (ns : NsMap) (vs : Vars) (skip : Bool)
+    (tag : QName) (attrs : AttrList) (kids : List Node)
+    (hcl : (Node.elem tag attrs kids).clean = true)
+    (hn : AllNodes (NodeFor p ns vs) (.elem tag attrs kids)) :
+    (chooseStrategy (dot :: p) = some .generic ∧ chooseStrategy p = some .simple) ∧
+    traceCaller (pathTest [dot :: p] ic).1 ns vs skip
+        (pathTest [dot :: p] ic).2 (Node.elem tag attrs kids).flatten
+      = traceCaller (pathTest [p] ic).1 ns vs skip
+        (pathTest [p] ic).2 (Node.elem tag attrs kids).flatten := by
+  cases ic with
+  | true => exact self_prefix_default_choice_pattern p hsup hpt h2 ns vs skip tag attrs kids hcl hn
+  | false =>
+    have hne : p ≠ [] := by intro h; rw [h] at h2; simp at h2
+    have hc1 := chooses_generic_dot p hne
+    have hc2 := chooses_simple_of_supports p hsup h2
+    refine ⟨⟨hc1, hc2⟩, ?_⟩
+    have e2 := simple_eq_generic p hsup hpt false ns vs skip tag attrs kids hcl hn
+    have e1 : traceCaller (pathTest [dot :: p] false (some .generic)).1 ns vs skip
+          (pathTest [dot :: p] false (some .generic)).2 (Node.elem tag attrs kids).flatten
+        = traceCaller (pathTest [p] false (some .generic)).1 ns vs skip
+          (pathTest [p] false (some .generic)).2 (Node.elem tag attrs kids).flatten := by
+      rcases supports_cases p hsup hpt with ⟨hp, _⟩ | ⟨q, a, rfl, hq, hqne, ha⟩
+      · exact self_prefix_irrelevant_nonpositional p ns vs (Frags.stepsOk_of_sstep ns vs p hp hne) tag attrs kids
+          hcl hn skip
+      · refine self_prefix_irrelevant_attr q a ha ns vs (Frags.stepsOk_of_sstep ns vs q hq hqne) tag attrs kids hcl
+          ?_ skip
+        refine AllNodes.imp (fun n h => ?_) _ hn
+        obtain ⟨h1, h2', h3, h4⟩ := h
+        exact ⟨h1, h2', h3, fun s hs => h4 s (List.mem_append_left _ hs)⟩
+    simp only [pathTest, List.map_cons, List.map_nil, hc1, hc2, Option.getD_some] at e1 e2 ⊢
+    rw [e1, e2]
+
+-- non-vacuity (self_prefix_irrelevant_attr / self_prefix_default_choice_full): `./descendant::a/b/@x`
+-- in relative mode on <r><a><b x="1"/></a></r>; the steps before the attribute step satisfy `StepsOk`
+example (ns : NsMap) (vs : Vars) : StepsOk ns vs (pathKmpAttr.take 2) :=
+  Frags.stepsOk_of_sstep ns vs _ (by
+    intro s hs; simp [pathKmpAttr] at hs
+    rcases hs with rfl | rfl <;> exact ⟨rfl, rfl, by simp⟩) (by simp [pathKmpAttr])
+example : runTest (pathTest [dot :: pathKmpAttr] false).1 [] [] (pathTest [dot :: pathKmpAttr] false).2
+    (Node.elem ⟨[], ['r']⟩ [] [Node.elem ⟨[], ['a']⟩ [] [Node.elem ⟨[], ['b']⟩ [(⟨[], ['x']⟩, ['1'])] []]]).flatten
+    = [.none, .none, .attrs [(⟨[], ['x']⟩, ['1'])], .none, .none, .none] := by decide +kernel
 
 end Genshi.Props.C17
